@@ -27,7 +27,7 @@ try:
     env = dict(os.environ, MLSTATIC_REPO=td, MLSTATIC_NOEVIDENCE='1')
     for pid in pids:
         r = subprocess.run(['/venv/bin/python', '-B', '-m', 'mlstatic.cli', pid], cwd='/verif', env=env, capture_output=True, text=True)
-        lines = [l for l in r.stdout.splitlines() if l.startswith(('REFUTED', 'INCONCLUSIVE', 'ANALYSIS', 'KNOWN', 'Traceback'))]
+        lines = [l for l in r.stdout.splitlines() if l.startswith(('REFUTED', 'INCONCLUSIVE', 'ANALYSIS', 'Traceback'))]
         print('%s exit=%d %s' % (pid, r.returncode, ' | '.join(l[:260] for l in lines[:2])))
         if r.returncode == 2 and not lines:
             print(r.stdout[-600:], r.stderr[-1500:])
